@@ -221,6 +221,16 @@ type c15case struct {
 	SlowHalf int      `json:"slow_half_slots"`      // it takes SlowHalf/2 slot durations
 	Reorg    int      `json:"reorg_in_run_slot"`    // chain-reorg event 5 s into run slot k, -1 = none
 	Step     *c15step `json:"clock_step,omitempty"` // one step of the node's wall clock, nil = none (no clock seam installed)
+	Head     *c15head `json:"head_event,omitempty"` // one SSE head event with an early-fetch feature enabled, nil = none
+}
+
+// c15head: the beacon node's SSE "head" event for run slot K is handed to the scheduler AtMs milliseconds after the start of
+// that slot (negative: before the slot's tick - an early block or a lagging clock), with the feature FetchAttOnBlock
+// ("onblock") or FetchAttOnBlockWithDelay ("withdelay") enabled and a fetch-only function registered.
+type c15head struct {
+	Feature string `json:"feature"`
+	K       int    `json:"k"`
+	AtMs    int64  `json:"at_ms"`
 }
 
 // c15step is one step of the node's wall clock by DeltaMs milliseconds at the instant (At, K):
@@ -245,6 +255,9 @@ func (s *c15step) String() string {
 
 func (c c15case) String() string {
 	b := fmt.Sprintf("table=%d start=%d fail=%v slow=%d@%d reorg=%d", c.Table, c.Start, c.Fail, c.SlowHalf, c.SlowAt, c.Reorg)
+	if c.Head != nil {
+		b += fmt.Sprintf(" head=%s/slot%d%+dms", c.Head.Feature, c.Head.K, c.Head.AtMs)
+	}
 	if c.Step != nil {
 		b += " step=" + c.Step.String()
 	}
@@ -513,6 +526,8 @@ func (b *c15bn) SyncCommitteeDuties(ctx context.Context, o *eth2api.SyncCommitte
 
 // ---- one execution ----------------------------------------------------------------------------------------------------------------------
 
+var c15headFetches atomic.Int64 // early fetches the scheduler started on head events (non-vacuity)
+
 func c15startSlot(cs c15case) uint64 { return uint64(c15Base*c15SPE + cs.Start) }
 
 // c15slotStart is the start instant of a slot relative to the bubble's start (computed here, not taken from the scheduler).
@@ -612,6 +627,12 @@ func c15run(t *testing.T, cs c15case) *c15obs {
 			obs.mu.Unlock()
 			return nil
 		})
+		if cs.Head != nil {
+			s.RegisterFetcherFetchOnly(func(context.Context, core.Duty, core.DutyDefinitionSet, string, eth2p0.Root) error {
+				c15headFetches.Add(1)
+				return nil
+			})
+		}
 		done := make(chan struct{})
 		go func() {
 			defer close(done)
@@ -642,6 +663,21 @@ func c15run(t *testing.T, cs c15case) *c15obs {
 					bn.step()
 				case <-stop:
 				}
+			}()
+		}
+		if h := cs.Head; h != nil {
+			hs := c15startSlot(cs) + uint64(h.K)
+			go func() {
+				select {
+				// 50/250 ms around a slot start or shortly before the attester offset: never the instant of a tick or a trigger
+				case <-time.After(c15slotStart(cs, hs) + time.Duration(h.AtMs)*time.Millisecond):
+				case <-stop:
+					return
+				}
+				s.HandleHeadEvent(context.Background(), eth2p0.Slot(hs), eth2p0.Root{0x42}, "bn0")
+				obs.mu.Lock()
+				obs.Notes = append(obs.Notes, fmt.Sprintf("head event for slot %d handed over at %s", hs, time.Since(t0)))
+				obs.mu.Unlock()
 			}()
 		}
 		if cs.Reorg >= 0 {
@@ -1279,5 +1315,38 @@ func TestVerifC15(t *testing.T) {
 				}
 			}
 		}
+	}
+
+	// ---- SSE head events with the early-fetch features (FetchAttOnBlock, FetchAttOnBlockWithDelay) ---------------------------
+	// the attester duty is still triggered not before its offset (with the delay feature: 300 ms later), whenever the head event
+	// of its slot arrives: before the slot's tick, right after it, or just before the offset
+	if only == "" || only == "head" {
+		for _, feat := range []string{"onblock", "withdelay"} {
+			var f featureset.Feature = featureset.FetchAttOnBlock
+			if feat == "withdelay" {
+				f = featureset.FetchAttOnBlockWithDelay
+			}
+			featureset.EnableForT(t, f)
+			for ti := range c15tables() {
+				for _, start := range []int{0, 1, c15SPE - 1} {
+					for k := 1; k <= 9; k++ {
+						for _, at := range []int64{-250, -50, 100, 3900} {
+							if !r.Mine() {
+								continue
+							}
+							if r.Expired() {
+								featureset.DisableForT(t, f)
+								return
+							}
+							cs := c15case{Table: ti, Start: start, SlowAt: -1, Reorg: -1, Head: &c15head{Feature: feat, K: k, AtMs: at}}
+							judge(cs, false)
+							r.Count("head_event_scripts", 1)
+						}
+					}
+				}
+			}
+			featureset.DisableForT(t, f)
+		}
+		r.Count("head_event_early_fetches_started", int(c15headFetches.Load()))
 	}
 }
